@@ -12,7 +12,7 @@ TRUSTED = ("Trusted: Lean 4.33 kernel (axioms per theorem audited on every run: 
            "is compared with the model's step (differential, so bounded by the generators; distribution, the model branches compared and the raw-buffer agreement of the sparse layer are in the evidence). "
            "Modelled, not verified: rustc, HashMap, generator-rs, encoding_rs, unicode-width/-normalization (parameters of the model).")
 
-TECH = "Lean 4 theorems over an executable model tied to the code by regenerated tables + per-run one-step correspondence; property predicate (the theorem's own definition) replayed on the implementation's transitions"
+TECH = "Lean 4 theorems over an executable model tied to the code by regenerated tables + per-run one-step correspondence; property predicate (the theorem's own definition) replayed on the implementation's transitions; a coverage-guided search (libFuzzer on the instrumented crate, seeded from the property's sessions) proposes further sessions for the correspondence - a search aid, never a verdict"
 
 CLAIMS = {
     "C01": dict(
@@ -37,11 +37,11 @@ CLAIMS = {
              "ESC ( ) sequence, CSI sequence with any body and either introducer - completed, aborted by CAN/SUB or `$`+1 -, OSC string) and its listener events, with no reference to recogniser states; "
              "feed_decomposes: EVERY input string is a sequence of such units followed by an incomplete one, the recogniser's events are exactly those units' events in order, and it is in the ground state exactly when "
              "nothing is incomplete; unit_sound / units_sound / grammar_spec: conversely any reading of an input as units yields the recogniser's events. "
-             "Dispatch.C03.dispatch_probes: the model's csi / escape / basic dispatch agree with what the compiled crate's dispatch functions call for every probed final, parameter-list shape and private flag "
+             "Dispatch.C03.private_argument_probes: the `private` argument ED / EL / DA receive from the compiled crate is Some(true) exactly for sequences marked with `?`. Dispatch.C03.dispatch_probes: the model's csi / escape / basic dispatch agree with what the compiled crate's dispatch functions call for every probed final, parameter-list shape and private flag "
              "(regenerated and re-decided by the kernel on every run). The tie of the recogniser is the lockstep comparison of the listener calls of the shipping parser with the model's, chunk by chunk, "
              "over generated, garbled, respelled and enumerated strings.",
         technique=TECH, design="7 (C03)",
-        note="`ESC ] R` and `ESC ] p` return to ground at once (as in the source; the property text does not pin these two down)."),
+        note="`ESC ] R` (the Linux console's reset-palette sequence, which has no terminator) returns to ground at once, as in the source; the property text does not pin it down. The same special case for `p` was a defect and is repaired (079a429)."),
     "C04": dict(
         text="Theorems C04.draw_invisible, put_narrow_cell, put_wide_cell (lead + placeholder, lead only in the last column), put_cursor, wrap_on / wrap_position (exactly CR + LF, scrolling at the bottom margin), "
              "wrap_off, irm_on (= ICH by the width), combine_same_row / combine_previous_row / combine_home, draw_frame (no setting changes), draw_is_fold, for every Unicode width / combining function. "
@@ -75,7 +75,7 @@ CLAIMS = {
         text="Theorems C09.init_wellformed / step_wellformed / reachable_wellformed: the invariant Inv (cursor bounds, margins, dirty rows, nothing stored outside the grid, "
              "legal saved width) holds for a new screen and is preserved by every one of the 43 operations incl. draw (any Unicode width function), resize and DECCOLM, hence for "
              "every reachable state by induction over the history; reachable_colours / step_colours: every cell, the cursor's rendition and every saved rendition have fg/bg that is a documented "
-             "colour name or a hex string (tables_ok on the regenerated tables, rgb_ok for the `{:02x}` formatting of any component); display() has exactly `lines` rows. "
+             "colour name or exactly six hexadecimal digits (tables_ok on the regenerated tables, rgb_ok for the `{:02x}` formatting of components <= 255, the only ones SGR accepts); display() has exactly `lines` rows. "
              "sparse_step_refines / sparse_reachable_wellformed: every operation on the HashMap buffer model observes as the dense operation, so every reachable buffer state observes as a well-formed screen. "
              "The executable form (Dump.illFormed, colour names written out independently of the tables) is evaluated on every state dumped from the real crate in this run.",
         technique=TECH, design="7 (C09)"),
@@ -89,7 +89,7 @@ CLAIMS = {
         text="Theorems C08.table_eq (the five regenerated SGR tables equal the documented 46-entry table, for every code: 0..107 by kernel decision, >=108 by a key-bound lemma), "
              "palette_table (all 256 regenerated palette strings equal the xterm formula: 16 base colours, 6x6x6 cube, 24 greys; decide +kernel), loop_eq_spec / sgr_eq_spec "
              "(select_graphic_rendition is the documented left-to-right fold with the documented parameter consumption, for every parameter list; only the cursor's rendition changes), "
-             "sgr_single/sgr_256/sgr_256_out_of_range/sgr_rgb/sgr_reset, draw_uses_rendition, C08_holds. propC08 (the independent fold) is evaluated on every SGR transition of the crate.",
+             "sgr_single/sgr_256/sgr_256_out_of_range/sgr_rgb (components <= 255: exactly six hexadecimal digits, rgb_six_digits)/sgr_rgb_out_of_range (a component above 255: the form is ignored, its parameters consumed)/sgr_reset, draw_uses_rendition, C08_holds. propC08 (the independent fold) is evaluated on every SGR transition of the crate.",
         technique=TECH, design="7 (C08)"),
     "C10": dict(
         text="Theorems C10.display_spec (each row is the documented rendering: left-to-right concatenation skipping the cell after a double-width character; exactly `lines` rows), blank_row, "
@@ -148,7 +148,7 @@ CLAIMS = {
         technique=TECH, design="7 (C18)"),
     "C19": dict(
         text="Theorems C19.osc_title (both introducers, codes 0/1/2, every payload over plain characters and ESC x pairs, all three terminators: exactly set_icon_name / set_title with the payload, "
-             "nothing drawn, back in ground), osc_terminators, osc_other_code, title_calls_frame, C19_holds. Tie: lockstep events over generated OSC strings with `;` `\\` `]` ESC pairs, C0 and non-ASCII "
+             "nothing drawn, back in ground), osc_terminators, osc_other_code, osc_longer_code (the code is the whole text before the first `;`: OSC 10;x, OSC 133;A have no effect), title_calls_frame, C19_holds. Tie: lockstep events over generated OSC strings with `;` `\\` `]` ESC pairs, C0 and non-ASCII "
              "payloads under arbitrary chunking; propC19 on every set_title / set_icon_name transition.",
         technique=TECH, design="7 (C19)"),
     "C20": dict(
